@@ -4,7 +4,7 @@
    Extra names (NUL, backslash, doubled separators), modes from Modes, two content tokens; both extractors.
    C is also the name of the canary directory next to the target, so "../C/x" and "/C/x" aim at it. *)
 EXTENDS Extract
-CONSTANTS MaxEntries, MaxComps, NameSet
+CONSTANTS MaxEntries, MaxComps, NameSet, Diverge
 Modes == {-1, 33152, 16877}          \* none, 0o100600, 0o40755
 VARIABLES es, via
 vars == <<es, via>>
@@ -20,7 +20,11 @@ Extra == {<<97, 0, 98>>, <<97, BSLASH, 98>>, <<BSLASH, 97>>, <<97, SLASH, SLASH,
 Small == {<<97>>, <<97, SLASH>>, <<97, SLASH, 67>>, <<97, SLASH, DOT, DOT, SLASH, 67>>, <<67, SLASH>>, <<DOT, DOT, SLASH, 67, SLASH, 120>>,
           <<SLASH, 67, SLASH, 120>>, <<97, SLASH, DOT, SLASH>>, <<67>>, <<97, SLASH, 67, SLASH>>, <<DOT, SLASH, 97>>}
 Names == IF NameSet = "full" THEN Generated \cup Extra ELSE Small
-Entries == [name : Names, mode : Modes, data : {<<1, "d1">>, <<1, "d2">>}]
+\* with Diverge the central name may differ from the local one (aimed at the canary, or merely different)
+DivNames == {<<DOT, DOT, SLASH, 67, SLASH, 120>>, <<SLASH, 67, SLASH, 120>>, <<67>>, <<DOT, DOT, SLASH, 67>>}
+Entries == IF Diverge
+           THEN UNION {{[name |-> n, cname |-> c, mode |-> m, data |-> <<1, "d1">>] : c \in DivNames \cup {n}, m \in Modes} : n \in Names}
+           ELSE {[name |-> n, cname |-> n, mode |-> m, data |-> d] : n \in Names, m \in Modes, d \in {<<1, "d1">>, <<1, "d2">>}}
 Fs0 == (TRoot :> DirNode(DefDir)) @@ (<<C>> :> DirNode(DefDir)) @@ (<<C, <<120>>>> :> FileNode(DefFile, <<6, "canary">>))
 \* (entries are appended one per step so that TLC's workers share the enumeration; every prefix is itself an archive)
 Init == es = <<>> /\ via \in {"seek", "stream"}
@@ -30,11 +34,12 @@ R == Run(Fs0, es, via)
 \* nothing outside the target directory is created, modified or removed, whatever the names are
 OutsideUntouched == Outside(R.fs) = Outside(Fs0)
 \* an unsafe name makes extraction fail
-UnsafeFails == ~AllSafe(es) => R.res = "err"
+\* (the seekable extractor never looks at local names)
+UnsafeFails == (IF via = "seek" THEN \E i \in 1..Len(es) : Enclosed(es[i].cname) = <<>> ELSE ~AllSafe(es)) => R.res = "err"
 \* safe, mutually consistent names: success, and exactly the denoted tree with contents and permission bits
-TreeExact == (AllSafe(es) /\ Consistent(es)) => (R.res = "ok" /\ R.clean /\ Below(R.fs) = Expected(es))
+TreeExact == (AllSafe(es) /\ Consistent(es) /\ ~Diverged(es)) => (R.res = "ok" /\ R.clean /\ Below(R.fs) = Expected(es))
 \* whenever the files phase got through without a conflict, what is on disk below T never depends on the extractor
 \* (the streaming extractor only postpones the modes)
 ExtractorsAgree == LET a == Run(Fs0, es, "seek")  b == Run(Fs0, es, "stream") IN
-                   (a.res = "ok" /\ b.res = "ok") => a.fs = b.fs
+                   (a.res = "ok" /\ b.res = "ok" /\ ~Diverged(es)) => a.fs = b.fs
 =============================================================================
